@@ -1,18 +1,22 @@
-"""(G) regenerate lean/Ruint/Gen/Words.lean from the Rust sources with tools/rs2lean.py.
-Only rewrites the file when its content changed (so lake does not rebuild needlessly)."""
+"""(G) regenerate lean/Ruint/Gen/{Prelude,Words,WordsRedc,WordsDiv}.lean from the Rust sources with
+tools/rs2lean.py. Only rewrites a file when its content changed (so lake does not rebuild needlessly)."""
 import hashlib
 import os
 import rs2lean
 
 
 def gen_words(repo, lean):
-    code, errors = rs2lean.translate(rs2lean.default_items(repo))
-    path = os.path.join(lean, 'Ruint', 'Gen', 'Words.lean')
-    old = open(path).read() if os.path.exists(path) else None
-    changed = old != code
-    if changed:
-        os.makedirs(os.path.dirname(path), exist_ok=True)
-        with open(path, 'w') as f:
-            f.write(code)
-    return {'file': 'lean/Ruint/Gen/Words.lean', 'changed': changed, 'sha256': hashlib.sha256(code.encode()).hexdigest()[:16],
-            'translator_errors': errors, 'committed_differs': changed}
+    files, errors = rs2lean.translate_all(repo)
+    changed = []
+    shas = {}
+    for mod, code in files.items():
+        path = os.path.join(lean, 'Ruint', 'Gen', mod + '.lean')
+        old = open(path).read() if os.path.exists(path) else None
+        if old != code:
+            os.makedirs(os.path.dirname(path), exist_ok=True)
+            with open(path, 'w') as f:
+                f.write(code)
+            changed.append(mod)
+        shas[mod] = hashlib.sha256(code.encode()).hexdigest()[:16]
+    return {'files': ['lean/Ruint/Gen/%s.lean' % m for m in files], 'changed': bool(changed), 'changed_modules': changed,
+            'sha256': shas, 'translator_errors': errors}
